@@ -50,6 +50,23 @@ CHECKS = {
     "C11": ("exhaustive enumeration of (unsupported statement class x snippet variant x structural position x entry point)",
             "The space statement-class x position is finite and small; it is enumerated completely from the running interpreter's ast module.",
             "snippet table completeness-guarded; dead-code positions (after return) not enumerated"),
+    "C10": ("exhaustive enumeration of accepted programs and of AST-block graphs; static census of the regenerated tree (node identity, "
+            "multiset of control-variable assignments, test/if correspondence, hygiene, unparse+compile)",
+            "A static census covers code on paths no input exercises; inputs are enumerated, not sampled.",
+            "census is static: it does not establish that the emitted code is placed on the right path (C07 does)"),
+    "C13": ("exhaustive enumeration of ALL small digraphs (ordered target lists incl. duplicates, self loops, external targets) and all "
+            "subsets; every query compared with a definition-level reference",
+            "Queries are pure functions of a small graph: the input space up to the bound is enumerated completely.",
+            "bounded node count (3 nodes x lists<=3, 4 nodes x lists<=2) plus level graphs of restructured E(n)"),
+    "C14": ("explicit-state BFS over edit-operation sequences with canonical-dump deduplication, each transition the real method, compared "
+            "in lock-step with a plain-dict reference model; product construction for path preservation",
+            "Histories of edit operations with all P/S choices up to the bound are explored exhaustively, from flat graphs and from "
+            "loop-restructured graphs (region and branching-synthetic predecessors).",
+            "depth and subset-size bounds (DESIGN 4/C14)"),
+    "C17": ("exhaustive enumeration of graphs x stage prefixes (and skeleton bytecode functions); the DOT source is parsed and compared "
+            "with the hierarchy",
+            "Every rendering of every enumerated hierarchy is compared node by node, cluster by cluster, edge by edge.",
+            "DOT text only; graphviz package's own quoting is trusted"),
     "C16": ("exhaustive enumeration of closed CFGs x {input, J, JL, JLB}; iterator and concealed view of every (sub)graph compared "
             "with the hierarchy",
             "Every sub-region at every depth of every enumerated hierarchy is iterated and compared.", "bounded scope"),
